@@ -411,6 +411,21 @@ func genClasses(e *emitter) {
 	{
 		hist, n := numberObjs([]Op{{K: "regnode", ID: 1, Ty: 1}, {K: "regnode", ID: 2, Ty: 2}, {K: "regnode", ID: 3, Ty: 3}, {K: "regnode", ID: 4, Ty: 4},
 			{K: "regpipe", Pid: 1, Ety: 1, IDs: []int{1, 2, 3}}, {K: "regpipe", Pid: 2, Ety: 1, IDs: []int{4, 3}}, {K: "thr", Ety: 1, V: 2}})
+		// the Broker's clock (running / stopped in the past, at the zero time, in the far future, now) x caller contexts that
+		// CARRY a deadline and are live (WithTimeout 1h, WithDeadline 2200, WithTimeoutCause / WithDeadlineCause 1h) and some
+		// that carry none: the Broker's clock says nothing about the caller's context — a live context means a full
+		// traversal; x never / before / during cancelled
+		for clock := 0; clock <= 4; clock++ {
+			for _, ck := range []int{9, 10, 4, 6, 1, 2} {
+				b := [][]int{{0}, {8}, {2}, {1}}
+				e.run(Case{Gen: "classes:clock-vs-deadline", Hist: hist, Ety: 1, Beh: b, Clock: clock, Payload: clock % 2, Sched: Sched{Ctx: ck}})
+				pt := Point{Hook: "node.call", P: 1, K: 1, Occ: 1}
+				e.run(Case{Gen: "classes:clock-vs-deadline-cancelled", Hist: hist, Ety: 1, Beh: b, Clock: clock, Sched: Sched{Ctx: ck, CancelAt: &pt}})
+				if clock%2 == 1 {
+					e.run(Case{Gen: "classes:clock-vs-deadline-pre", Hist: hist, Ety: 1, Beh: b, Clock: clock, Sched: Sched{Ctx: ck, Pre: true}})
+				}
+			}
+		}
 		for payload := 0; payload <= 3; payload++ {
 			for clock := 0; clock <= 2; clock++ {
 				for vb, b := range [][][]int{{{0}, {8}, {2}, {8}}, {{1}, {0}, {0}, {3}}} {
@@ -436,12 +451,22 @@ func genClasses(e *emitter) {
 			{K: "regpipe", Pid: 4, Ety: 1, IDs: []int{1, 2, 1, 2, 3}}, // not adjacent, five nodes
 			{K: "regpipe", Pid: 1, Ety: 2, IDs: []int{5, 2, 3}},       // the same nodes under another type
 			{K: "thr", Ety: 1, V: 3}, {K: "thrs", Ety: 1, V: 2}}
+		// node types outside the four declared constants (0, 5, 99, -1) in every non-final position: node k+1 is invoked iff
+		// node k returned an event, whatever Type() says; complete-sinks lists only nodes whose Type() is Sink
+		ops = append(ops, Op{K: "regnode", ID: 6, Ty: 6}, Op{K: "regnode", ID: 7, Ty: 7}, Op{K: "regnode", ID: 8, Ty: 8}, Op{K: "regnode", ID: 9, Ty: 9},
+			Op{K: "regpipe", Pid: 5, Ety: 1, IDs: []int{6, 2, 3}},
+			Op{K: "regpipe", Pid: 6, Ety: 1, IDs: []int{1, 7, 4, 3}},
+			Op{K: "regpipe", Pid: 7, Ety: 1, IDs: []int{8, 9, 6, 2, 5}},
+			Op{K: "regpipe", Pid: 2, Ety: 2, IDs: []int{9, 7, 2, 3}},
+			Op{K: "thr", Ety: 1, V: 6}, Op{K: "thrs", Ety: 1, V: 4})
 		hist, _ := numberObjs(ops)
 		for _, b := range [][][]int{
-			{{0}, {0}, {2}, {0}, {0}},          // everything passes, the last sink completes
-			{{0}, {0}, {2}, {2}, {2}},          // the inner sinks and the formatter-filter drop: complete (sink / not a sink)
-			{{0, 2}, {0}, {0}, {0, 2}, {3, 0}}, // by visit
-			{{1}, {8}, {0}, {1}, {0, 2, 3}},
+			{{0}, {0}, {2}, {0}, {0}, {0}, {0}, {0}, {0}},       // everything passes, the last sink completes
+			{{0}, {0}, {2}, {0}, {0}, {2}, {2}, {2, 0}, {0, 2}}, // the nodes of undeclared type drop: complete, not a complete sink
+			{{0}, {0}, {0}, {0}, {2}, {3}, {1}, {8}, {3, 1}},    // ... fail, replace, mutate
+			{{0}, {0}, {2}, {2}, {2}, {0}, {0}, {0}, {0}},          // the inner sinks and the formatter-filter drop: complete (sink / not a sink)
+			{{0, 2}, {0}, {0}, {0, 2}, {3, 0}, {0}, {1}, {0}, {0}}, // by visit
+			{{1}, {8}, {0}, {1}, {0, 2, 3}, {1}, {0}, {8}, {0}},
 		} {
 			for _, et := range []int{1, 2} {
 				e.run(Case{Gen: "classes:shapes", Hist: hist, Ety: et, Beh: b})
@@ -877,8 +902,12 @@ func genCancel(e *emitter, r *hc.Rand, nRandom, reps int) int {
 
 // ---------- random registries, behaviours and schedules ----------
 func genRandom(e *emitter, r *hc.Rand, n int) {
-	idType := map[int]int{1: 1, 2: 1, 3: 2, 4: 4, 5: 3, 6: 3}
 	for i := 0; i < n; i++ {
+		idType := map[int]int{1: 1, 2: 1, 3: 2, 4: 4, 5: 3, 6: 3}
+		if r.Chance(1, 5) {
+			// one of the nodes that sit in inner positions reports a NodeType outside the declared constants
+			idType[1+r.Intn(2)] = 6 + r.Intn(4)
+		}
 		var ops []Op
 		for id := 1; id <= 6; id++ {
 			ops = append(ops, Op{K: "regnode", ID: id, Ty: idType[id]})
